@@ -232,7 +232,7 @@ def run(prog: Program, res: Result, tier: str) -> None:
                 comp = parent(comp)
             ok = norm(bc) == "chans[batch_start:batch_end]" and norm(bf) == "filenames[batch_start:batch_end]" and \
                 isinstance(fnm, ast.ListComp) and norm(fnm.generators[0].iter) == "chans" and comp is not None and \
-                norm(comp.generators[0].iter) == "batch_files"
+                _iterates_in_order(comp.generators[0], "batch_files")
             why = "file k of a batch is named after chans[batch_start+k] but does not receive that column" if not ok else ""
         else:
             why = f"written array is `{norm(a)}`"
@@ -278,6 +278,16 @@ def run(prog: Program, res: Result, tier: str) -> None:
     res.floor("R3", 1)
     res.floor("R4", 3)
     res.floor("R5", 10)
+
+
+def _iterates_in_order(gen: ast.comprehension, name: str) -> bool:
+    """`for f in name` or `for f, ... in zip(name, ...)` / enumerate(name): files are opened in the order of `name`."""
+    it = gen.iter
+    if norm(it) == name:
+        return True
+    if isinstance(it, ast.Call) and dotted(it.func) == "zip" and it.args and norm(it.args[0]) == name:
+        return True
+    return False
 
 
 def _is_result_of(op: StreamOp, arg: ast.AST, kcall: ast.Call, at: ast.Call) -> bool:
